@@ -186,6 +186,16 @@ func prepareDet(cfg *config) ([]string, []string, map[string]any, error) {
 	}
 
 	pool := detGrammarPool(cfg)
+	// grammars composed from building blocks under drawn options (VERIF_SEED decides which)
+	nComposed := 16
+	if cfg.tier == "thorough" {
+		nComposed = 48
+	}
+	composed, composedDesc, err := composeDetPool(cfg, nComposed)
+	if err != nil {
+		return nil, nil, nil, err
+	}
+	pool = append(pool, composed...)
 	var sites []string
 	var wantProbes []string
 	for _, s := range rw.sites {
@@ -238,6 +248,7 @@ func prepareDet(cfg *config) ([]string, []string, map[string]any, error) {
 	info := map[string]any{
 		"map_range_sites":        rw.sites,
 		"grammars":               usable,
+		"composed_grammars":      composedDesc,
 		"grammars_skipped":       skipped,
 		"natural_vs_reference":   fmt.Sprintf("%d grammars: un-instrumented natural-order output compared with the instrumented all-ascending reference, %d differ", len(usable), len(disagree)),
 		"natural_order_disagree": disagree,
